@@ -124,6 +124,9 @@ func (p *Program) VerifyFunc(ct *Contract) *FuncReport {
 		e.run(ct, fi, lit)
 		rep.Modes = append(rep.Modes, mode)
 		rep.obs = append(rep.obs, e.obs...)
+		for _, l := range e.vc.UsedAxioms() {
+			e.externs["axiom["+l+"] "+e.axiomText[l]] = true
+		}
 		rep.Dropped = mergeStr(rep.Dropped, keysOf(e.dropped))
 		rep.Externs = mergeStr(rep.Externs, keysOf(e.externs))
 		rep.Inlined = mergeStr(rep.Inlined, keysOf(e.inlined))
@@ -296,6 +299,9 @@ func (e *Exec) run(ct *Contract, fi *FuncInfo, lit *ast.FuncLit) {
 		// (in concurrent mode protected state changes by interference at every acquire; the frame is a sequential notion)
 		e.checkFrame(ct, fi, fr, rets)
 	}
+	if len(e.spawns) > 0 {
+		e.runSpawns(ct, fr)
+	}
 	if len(rets) > 0 || len(ct.Ensures) > 0 {
 		// canary: some return must be reachable, otherwise the assumptions exclude everything
 		if hasLoopForever(body) && len(rets) == 0 {
@@ -383,8 +389,8 @@ func (e *Exec) emitAxioms() {
 		st := &State{pc: "true", vars: map[string]Term{}}
 		sc := &Ctx{st: st, fr: cfr, spec: true}
 		phi := e.evalCond(ax.Expr, sc)
-		e.vc.Fact(phi)
-		e.externs["axiom["+ax.Label+"] "+ax.Text] = true
+		e.vc.AddAxiom(phi, ax.Label)
+		e.axiomText[ax.Label] = ax.Text
 	}
 }
 
@@ -428,6 +434,9 @@ func (p *Program) VerifyLemma(l *Lemma) *FuncReport {
 	rep.obs = e.obs
 	rep.NumObs = len(e.obs)
 	rep.Errors = e.errors
+	for _, l := range e.vc.UsedAxioms() {
+		e.externs["axiom["+l+"] "+e.axiomText[l]] = true
+	}
 	rep.Externs = keysOf(e.externs)
 	if len(rep.Errors) > 0 {
 		rep.ToolError = true
@@ -438,7 +447,42 @@ func (p *Program) VerifyLemma(l *Lemma) *FuncReport {
 // checkFrame: every heap location that differs between entry and a return state must be covered by the
 // contract's modifies clause (object granularity for x.f, row granularity for mapof(x.f)).
 func (e *Exec) checkFrame(ct *Contract, fi *FuncInfo, fr *Frame, rets []*Ret) {
-	sig := fi.Obj.Type().(*types.Signature)
+	var finals []*State
+	for _, r := range rets {
+		finals = append(finals, r.st)
+	}
+	e.checkFrameAgainst(ct.Modifies, fr.entry, finals, fr, "frame", shortFile(ct.File))
+}
+
+// runSpawns verifies every goroutine started by the function: started from an arbitrary later state it may only
+// modify what the contract's `spawn modifies` clause lists (and must keep the monitor invariants it touches).
+func (e *Exec) runSpawns(ct *Contract, fr *Frame) {
+	spawns := e.spawns
+	e.spawns = nil
+	for i, sp := range spawns {
+		st := sp.st.clone()
+		e.havocAll(st)
+		for k, v := range st.vars {
+			if strings.HasPrefix(k, "GV!") {
+				e.havocKey(st, k, v.T)
+			}
+			if strings.HasPrefix(k, "$held!") {
+				delete(st.vars, k)
+			}
+		}
+		e.advanceTime(st, "0")
+		entry := st.clone()
+		e.inSpawn = true
+		savedSafety := e.safety
+		e.safety = false
+		e.call(sp.call, e.ctx(st, sp.fr), 0)
+		e.safety = savedSafety
+		e.inSpawn = false
+		e.checkFrameAgainst(ct.SpawnMod, entry, []*State{st}, sp.fr, fmt.Sprintf("spawn%d-frame", i+1), sp.pos)
+	}
+}
+
+func (e *Exec) checkFrameAgainst(mods []ast.Expr, entry *State, finals []*State, fr *Frame, kind, where string) {
 	type allow struct {
 		whole bool
 		objs  []string
@@ -451,10 +495,11 @@ func (e *Exec) checkFrame(ct *Contract, fi *FuncInfo, fr *Frame, rets []*Ret) {
 		return allowed[k]
 	}
 	timeOK, allOK := false, false
-	entry := fr.entry
+	if kind != "frame" {
+		timeOK = true
+	}
 	sc := &Ctx{st: entry, fr: fr, spec: true, old: entry}
-	_ = sig
-	for _, m := range ct.Modifies {
+	for _, m := range mods {
 		switch x := m.(type) {
 		case *ast.Ident:
 			switch {
@@ -508,12 +553,21 @@ func (e *Exec) checkFrame(ct *Contract, fi *FuncInfo, fr *Frame, rets []*Ret) {
 		return
 	}
 	al := e.get(entry, "$alloc", &Type{K: KGMap, Key: tInt, Elem: tBool})
-	for _, r := range rets {
+	entryEpoch := ""
+	if ep, ok := entry.vars["$epoch"]; ok {
+		entryEpoch = ep.S
+	}
+	for _, rst := range finals {
+		r := struct{ st *State }{rst}
 		if r.st.dead() {
 			continue
 		}
-		if _, changedEpoch := r.st.vars["$epoch"]; changedEpoch {
-			e.assert(r.st, e.fnName+"#frame[heap]", "frame", "false", "a call without a frame havocked the heap but the contract does not say `modifies heap`", shortFile(ct.File), nil)
+		curEpoch := ""
+		if ep, ok := r.st.vars["$epoch"]; ok {
+			curEpoch = ep.S
+		}
+		if curEpoch != entryEpoch {
+			e.assert(r.st, e.fnName+"#"+kind+"[heap]", "frame", "false", "a call without a frame havocked the heap but the contract does not say `modifies heap`", where, nil)
 			continue
 		}
 		var keys []string
@@ -527,7 +581,7 @@ func (e *Exec) checkFrame(ct *Contract, fi *FuncInfo, fr *Frame, rets []*Ret) {
 				if !timeOK {
 					ev := e.get(entry, k, v.T)
 					if ev.S != v.S {
-						e.assert(r.st, e.fnName+"#frame[now]", "frame", fmt.Sprintf("(= %s %s)", v.S, ev.S), "time advances but the contract does not say `modifies now`", shortFile(ct.File), nil)
+						e.assert(r.st, e.fnName+"#"+kind+"[now]", "frame", fmt.Sprintf("(= %s %s)", v.S, ev.S), "time advances but the contract does not say `modifies now`", where, nil)
 					}
 				}
 				continue
@@ -543,9 +597,9 @@ func (e *Exec) checkFrame(ct *Contract, fi *FuncInfo, fr *Frame, rets []*Ret) {
 			if a != nil && a.whole {
 				continue
 			}
-			name := fmt.Sprintf("%s#frame[%s]", e.fnName, strings.TrimPrefix(shortKey(k), "!"))
+			name := fmt.Sprintf("%s#%s[%s]", e.fnName, kind, strings.TrimPrefix(shortKey(k), "!"))
 			if strings.HasPrefix(k, "GV!") || strings.HasPrefix(k, "G!") {
-				e.assert(r.st, name, "frame", fmt.Sprintf("(= %s %s)", v.S, ev.S), "modified but not in the modifies clause", shortFile(ct.File), nil)
+				e.assert(r.st, name, "frame", fmt.Sprintf("(= %s %s)", v.S, ev.S), "modified but not in the modifies clause", where, nil)
 				continue
 			}
 			// arrays indexed by object: all objects that were allocated at entry and are not listed keep their value
@@ -558,7 +612,7 @@ func (e *Exec) checkFrame(ct *Contract, fi *FuncInfo, fr *Frame, rets []*Ret) {
 			}
 			guard := fmt.Sprintf("(and (select %s %s) %s)", al.S, o, strings.Join(append(excl, "true"), " "))
 			phi := fmt.Sprintf("(=> %s (= (select %s %s) (select %s %s)))", guard, v.S, o, ev.S, o)
-			e.assert(r.st, name, "frame", phi, "objects other than those in the modifies clause keep their "+shortKey(k), shortFile(ct.File), nil)
+			e.assert(r.st, name, "frame", phi, "objects other than those in the modifies clause keep their "+shortKey(k), where, nil)
 		}
 	}
 }
